@@ -18,6 +18,10 @@ import SparseV.Lemmas.Loops
 import SparseV.Lemmas.NoInternal
 import SparseV.Lemmas.Gen.Bcast
 import SparseV.Lemmas.Gen.Slicing
+import SparseV.Lemmas.MaskCost
+import SparseV.Lemmas.Width
+import SparseV.Generated.MaskHeuristic
+import SparseV.Generated.Compressed
 namespace SparseV.C18
 open SparseV SparseV.Validate
 
@@ -272,6 +276,45 @@ example : gcxsContract 1 [5] [0, 1, 1] [2, 2, 3] (some [0]) ∧ gcxsCtor 1 1 [5]
     gcxsCtor 1 2 [1, 1] [0, 2] (some [1, 2]) (some [0]) = .ok () ∧ gcxsCtor 1 2 [1, 0] [0, 2] (some [1, 2]) (some [0]) = .ok () ∧
     gcxsCtor 1 1 [0] [0, 1, 1] (some [2, 2]) none = .error Err.type := by decide
 
+/-! ### the verdict does not depend on the integer dtype of `indices` / `indptr` -/
+
+/-- **gcxs_ctor_dtype_independent.** Store `indices` in any integer type `ti` and `indptr` in any integer type `tp` (int8 … int64, uint8 …
+uint64, the two may differ) that can hold their values: what the constructor reads back are the same integers, and every test of the model —
+lengths, ends, the COMPARISON `indptr[1:] < indptr[:-1]`, the range of the indices — is a comparison of stored values, so the verdict is the
+verdict on the mathematical integers. -/
+theorem gcxs_ctor_dtype_independent (ti tp : IdxTy) (dn dataLen : Nat) (indices indptr : List Int) (shape caxes : Option (List Int))
+    (hi : ∀ v ∈ indices, ti.fits v) (hp : ∀ v ∈ indptr, tp.fits v) :
+    gcxsCtor dn dataLen (indices.map ti.wrap) (indptr.map tp.wrap) shape caxes = gcxsCtor dn dataLen indices indptr shape caxes := by
+  have e1 : indices.map ti.wrap = indices := by
+    conv => rhs; rw [← List.map_id indices]
+    exact List.map_congr_left (fun v hv => IdxTy.wrap_of_fits (hi v hv))
+  have e2 : indptr.map tp.wrap = indptr := by
+    conv => rhs; rw [← List.map_id indptr]
+    exact List.map_congr_left (fun v hv => IdxTy.wrap_of_fits (hp v hv))
+  rw [e1, e2]
+
+/-- **indptr_test_is_the_comparison.** The monotonicity test the constructor performs is the slice comparison — in the translated fragment
+`Gen.gcxsCtorChecks` (tools/targets.d/C14.py pins the source text `np.any(self.indptr[1:] < self.indptr[:-1])` to its parameter
+`ptrDecreases`; any other spelling is refused and this theorem no longer builds) a triple with consistent lengths and ends is rejected
+exactly through that parameter — and the slice comparison finds a decrease in EVERY integer type, because it never computes in the type. -/
+theorem indptr_test_is_the_comparison :
+    (∀ (ndim sh0 nind rows cols iN imin imax : Int), 2 ≤ ndim →
+      Gen.gcxsCtorChecks 1 true ndim sh0 nind nind (rows + 1) rows cols 0 nind true iN imin imax = .error Err.value) ∧
+    (∀ (t : IdxTy) (p : List Int), decreasesIn t .sliceCompare p = !(nondecreasing p)) := by
+  refine ⟨?_, fun _ _ => rfl⟩
+  intro ndim sh0 nind rows cols iN imin imax h2
+  have h1 : ndim ≥ 1 := by omega
+  simp [Gen.gcxsCtorChecks, h1, h2]
+
+/-- **diff_sign_wraps_unsigned.** What the other spelling would do: `np.diff` of an unsigned array wraps, so index pointers `[0, 3, 1, 3]`
+stored as uint8 / uint16 / uint32 show no negative difference and would be accepted again, although they decrease (and the comparison
+sees it in every type); in a signed type the difference form sees it too. -/
+theorem diff_sign_wraps_unsigned :
+    decreasesIn IdxTy.u8 .diffSign [0, 3, 1, 3] = false ∧ decreasesIn IdxTy.u16 .diffSign [0, 3, 1, 3] = false ∧
+    decreasesIn IdxTy.u32 .diffSign [0, 3, 1, 3] = false ∧ decreasesIn IdxTy.i8 .diffSign [0, 3, 1, 3] = true ∧
+    decreasesIn IdxTy.u8 .sliceCompare [0, 3, 1, 3] = true ∧ decreasesIn IdxTy.u32 .sliceCompare [0, 3, 1, 3] = true ∧
+    gcxsCtor 1 3 [0, 1, 0] [0, 3, 1, 3] (some [3, 2]) (some [0]) = .error Err.value := by decide
+
 /-! ## (b) termination -/
 
 /-- **linear_filter_loop_terminates.** The first `while` of `get_slicing_selection` (cursors `count`, `col_count`) exits within
@@ -315,6 +358,46 @@ example : Loops.slicingSelection none #[1, 2, 5, 7] [(0, 2), (2, 4)] #[2, 5, 6, 
 /-- outside the guard the code guarantees (`col` strictly ascending: `is_sorted`) the second loop reads past the row:
 `current_row[size]` with `size = len(current_row)` — numba does not bounds-check in nopython mode -/
 example : Loops.slicingSelection none #[1, 2] [(0, 2)] #[2, 1] = .oob := by decide
+
+/-! ### the cost of `_compute_mask` (COO basic indexing) -/
+
+open MaskCost in
+/-- **mask_heuristic_pinned.** The guard of the `while` loop of `_compute_mask` and the definition of `n_current_slices`, as read from the
+source on this run (tools/tables.d/C18.py), are the ones the cost statement below is about:
+`n_current_slices * np.log(n_current_slices / max(n_pairs, 1)) > n_matches + n_pairs`, `n_current_slices = len(range(…)) * n_pairs + 2`. -/
+theorem mask_heuristic_pinned :
+    Gen.maskHeuristicLhs = lhsAsRead ∧ Gen.maskHeuristicRhs = rhsAsRead ∧ Gen.maskSlicesDef = slicesAsRead := by decide
+
+open MaskCost in
+/-- **compute_mask_iterations_bound.** For ANY lengths `L` of the slices: with a guard that has the one property `HeuristicSound` — going on with
+pairs on `S ≥ 3·max(p,1)` slices implies `S ≤ M + p`, which for the pinned guard is `log(S / max(p,1)) ≥ log 3 > 1` — all loop iterations of
+`_compute_mask` (the two binary searches per slice position and pair, then the linear filter) on an array with `nnz` stored entries and an index
+of `ndim` entries number at most `ndim · (3·nnz + 2)`.  The bound does not mention `L`: `x[1:]` on an axis of `2^62` positions with one stored
+entry costs a handful of iterations. -/
+theorem compute_mask_iterations_bound (take : Nat → Nat → Nat → Bool) (hs : HeuristicSound take) (nnz : Nat) (steps : List AxisStep)
+    (hadm : Admissible nnz steps) :
+    totalIterations take 1 nnz steps ≤ steps.length * (3 * nnz + 2) ∧
+    pairIterations take 1 nnz steps ≤ steps.length * (3 * nnz + 2) := by
+  refine ⟨totalIterations_le take hs nnz steps 1 nnz (by omega) (Nat.le_refl _) hadm, ?_⟩
+  have h1 := pairIterations_le take hs nnz steps 1 nnz (by omega) (Nat.le_refl _) hadm
+  have h2 := pairAxes_le_length take steps 1 nnz
+  exact Nat.le_trans h1 (Nat.mul_le_mul_right _ h2)
+
+open MaskCost in
+/-- **compute_mask_needs_the_heuristic.** The hypothesis is not decoration: with a guard that never leaves the pair search (what a guard of the
+form `S · log(max(M,1) / max(p,1)) > M + p` amounts to when at most one candidate entry per pair is left: the logarithm is ≤ 0) the iterations
+equal the slice length, for every length. -/
+theorem compute_mask_needs_the_heuristic (L : Nat) :
+    pairIterations (fun _ _ _ => true) 1 1 [⟨L, 1, 1⟩] = L ∧ Admissible 1 [⟨L, 1, 1⟩] := by
+  simp [pairIterations, Admissible]
+
+open MaskCost in
+/-- non-vacuity: the exact decision `S ≤ M + p` is a sound guard; a slice of a million positions over one pair with three entries leaves for the
+filter (3 iterations), a slice of two positions is searched (2 iterations) -/
+example : HeuristicSound (fun S p M => decide (S ≤ M + p)) ∧
+    totalIterations (fun S p M => decide (S ≤ M + p)) 1 3 [⟨1000000, 1, 1⟩] = 3 ∧
+    totalIterations (fun S p M => decide (S ≤ M + p)) 1 3 [⟨2, 2, 3⟩, ⟨1000000, 1, 1⟩] = 2 + 3 := by
+  refine ⟨fun S p M h _ => by simpa using h, by decide, by decide⟩
 
 /-! ## (c) no internal errors -/
 
